@@ -34,9 +34,9 @@ for d in sorted(os.listdir('/tmp/seeded_in')):
         rr = [l for l in lines if 'failed after' in l or 'violated' in l or 'case ' in l]
         if rr: reason = rr[0][:400]; break
     out = dict(
-        property=own, variant=meta.get('variant'), round={'C': 2, 'D': 2, 'E': 3, 'F': 3, 'G': 4, 'H': 4, 'I': 5, 'J': 5, 'K': 6, 'L': 6, 'M': 7, 'N': 7, 'O': 8, 'P': 8, 'Q': 9, 'R': 9, 'S': 10, 'T': 10}.get(meta.get('variant'), 1),
+        property=own, variant=meta.get('variant'), round={'C': 2, 'D': 2, 'E': 3, 'F': 3, 'G': 4, 'H': 4, 'I': 5, 'J': 5, 'K': 6, 'L': 6, 'M': 7, 'N': 7, 'O': 8, 'P': 8, 'Q': 9, 'R': 9, 'S': 10, 'T': 10, 'U': 11, 'V': 11}.get(meta.get('variant'), 1),
         summary=meta.get('summary'), needs_to_manifest=meta.get('needs'), demo_dir=meta.get('demo_dir'),
-        author="independent sub-agent given only the property text (rounds 2 to 10: plus one-line summaries of the earlier ideas for that property, to be avoided) and a scratch worktree",
+        author="independent sub-agent given only the property text (rounds 2 to 11: plus one-line summaries of the earlier ideas for that property, to be avoided) and a scratch worktree",
         confirmed=dict(how="tools/mutant_eval.sh in a scratch worktree of /repo HEAD (removed afterwards)",
                        demo_passes_on_clean_tree=has(first, 'demo on clean tree: PASS'), demo_fails_with_change=has(first, 'demo with change: FAIL'),
                        builds=has(first, 'build: ok'), existing_suite_passes_with_change=has(first, 'existing suite with change: PASS')),
